@@ -236,7 +236,10 @@ func checkC18(eng *Engine, prop, tier string, seed int, t0 time.Time, evPath str
 		}
 	}
 	solveAll([]*VC{vc}, dir, 20, seed, false)
-	defer func() { maybeRecordProofs([]*VC{vc}) }()
+	// function contracts tagged C18: the custom JSON marshallers (they are outside the table lemmas)
+	fvcs := contractVCs(eng, prop)
+	solveAll(fvcs, dir, 75, seed, false)
+	defer func() { maybeRecordProofs(append([]*VC{vc}, fvcs...)) }()
 
 	nObl, nOK, violations := 0, 0, 0
 	var knownHit []string
@@ -274,6 +277,50 @@ func checkC18(eng *Engine, prop, tier string, seed int, t0 time.Time, evPath str
 			suffix = " no-failing-input-found"
 		}
 		fmt.Printf("VIOLATION property=%s replay=%s obligation=%s%s\n", prop, rp, o.Name, suffix)
+	}
+	rmap := loadReplayMap(filepath.Join(verif, "replay", "map.txt"))
+	var fnsUnder []map[string]any
+	fassume := map[string]bool{}
+	for _, fv := range fvcs {
+		fnsUnder = append(fnsUnder, map[string]any{"name": shortType(fv.fnName), "obligations": len(fv.obls)})
+		for a := range fv.assumptions {
+			fassume[a] = true
+		}
+		if len(fv.unsupported) > 0 {
+			fv.obls = append(fv.obls, &Obligation{Name: "in-subset:" + shortType(fv.fnName), Kind: "subset", Result: "unknown", Model: strings.Join(fv.unsupported, "\n")})
+		}
+		for _, o := range fv.obls {
+			if o.Cover {
+				if o.Result != "unsat" {
+					continue
+				}
+				o.Model = "vacuous precondition: requires/axioms of " + fv.fnName + " are unsatisfiable"
+			}
+			nObl++
+			if !o.Cover && o.Result == "unsat" {
+				nOK++
+				byBackend[o.Solver]++
+				continue
+			}
+			violations++
+			var rb strings.Builder
+			fmt.Fprintf(&rb, "property: %s\nobligation: %s\nkind: %s\nsolver result: %s (%s, %.1fs)\nclause: %s\nsource: %s\n", prop, o.Name, o.Kind, o.Result, o.Solver, o.Seconds, o.Note, o.Pos)
+			anyFailed := false
+			for _, rm := range rmap {
+				if rm.re.MatchString(o.Name) {
+					failed, out := runReplay(verif, rm.pkg, rm.test)
+					fmt.Fprintf(&rb, "\n--- replay %s %s: failed=%v\n%s\n", rm.pkg, rm.test, failed, out)
+					anyFailed = anyFailed || failed
+				}
+			}
+			fmt.Fprintf(&rb, "\n--- solver output / model\n%s\n", truncate(o.Model, 20000))
+			rp := writeReplay(verif, prop, o.Name, rb.String())
+			suffix := ""
+			if !anyFailed {
+				suffix = " no-failing-input-found"
+			}
+			fmt.Printf("VIOLATION property=%s replay=%s obligation=%s%s\n", prop, rp, o.Name, suffix)
+		}
 	}
 	// bounded stand-in (exhaustive over the registered functions, still not a proof of the reflective code):
 	// the real accessors are executed for every registered function through an injected test
@@ -323,8 +370,13 @@ func checkC18(eng *Engine, prop, tier string, seed int, t0 time.Time, evPath str
 		"by_backend":         byBackend,
 		"known_findings_hit": knownHit,
 		"samples":            samples,
+		"functions_under_contract": fnsUnder,
 		"bounded_standins":   []map[string]any{{"what": "real tag-driven accessors executed for every registered function x command shape (TestStandin_C18)", "bound": "one generated value per payload type", "subtests_run": standN, "unlisted_failures": standBad}},
 	}
+	for a := range fassume {
+		ev.Assumptions = append(ev.Assumptions, a)
+	}
+	sort.Strings(ev.Assumptions)
 	noteProofLog(&ev)
 	b, _ := json.MarshalIndent(ev, "", " ")
 	if os.Getenv("VERIF_FINGERPRINT") == "" {
